@@ -5,7 +5,7 @@ from .c01 import compositions
 
 RULE = ("command sequences delivered under arrival schedules: strict lock-step (one command per read), pipelining depth "
         "1..8 (k commands per read), random chunkings, multi-packet commands around exact multiples of a small packet limit "
-        "(lock-step, depth 2, random chunkings), reads that exactly fill the receive buffer's spare capacity, and ALL compositions of short conversations into reads; the harness's "
+        "(lock-step, depth 2, random chunkings), replies of 254..258 and 510..514 packets (the sequence counter wraps to its start), reads that exactly fill the receive buffer's spare capacity, and ALL compositions of short conversations into reads; the harness's "
         "instrumented transport logs every read/write/flush in order; oracle: at every read() the server has flushed "
         "everything it wrote, and the number of complete replies in the flushed output equals the number of reply-expecting "
         "commands wholly contained in the bytes delivered so far; commands delivered in one read are all answered before the "
@@ -126,6 +126,22 @@ def run(ctx):
                     c.reads = toks
                 c.meta["depth"] = 100 + depth
                 cases.append(c)
+    # replies whose packet count is a multiple of 256 or next to one (the sequence counter wraps to where it
+    # started), in lock-step with a following command
+    c1 = col(b"a", 3, 0)
+    for nrows in (list(range(250, 255)) + list(range(506, 511))) if ctx.quick() else (list(range(245, 262)) + list(range(500, 520)) + [764, 1020]):
+        i += 1
+        prog = " ".join(["q start 1 " + c1] + ["wr 1 i32:%d p" % (k % 100) for k in range(nrows)] + ["fin"])
+        cmds = [("query", cmd_query(b"big")), ("ping", cmd_ping()), ("query", cmd_query(b"q"))]
+        c = mk_case("c12_%d" % i, cmds, [prog, "q done 1 1"])
+        stream = c.meta["stream"]
+        toks, j = [], 0
+        while j < len(stream):
+            ln = int.from_bytes(stream[j:j + 3], "little")
+            toks.append("d:" + hexspec(stream[j:j + 4 + ln])); j += 4 + ln
+        c.reads = toks
+        c.meta["depth"] = 300
+        cases.append(c)
     from .c01 import gen_fill
     for c in gen_fill(ctx):
         c.id = c.id.replace("c01_", "c12_"); c.meta["depth"] = 200
